@@ -116,6 +116,8 @@ func init() {
 			}
 			return mkInt(int64(c.depth))
 		},
+		// vsymMaxDepth(): deepest interpreted call depth reached so far on this path (ghost; 0 natively)
+		"vsymMaxDepth": func(e *Exec, c *frame, fn *ssa.Function, a []Value) Value { return mkInt(int64(e.maxDepthSeen)) },
 		// vsymIsSym(): true under the engine, false natively
 		"vsymIsSym": func(e *Exec, c *frame, fn *ssa.Function, a []Value) Value { return mkBool(true) },
 		// vsymConcInt(x): fork over the feasible values of x (bounded)
